@@ -277,19 +277,17 @@ Proof.
   - rewrite map_fst_combine by exact Hlen. subst keys. apply Permutation_map, isort_perm.
 Qed.
 
-(* ... and every field name is a valid identifier when every property name has an ASCII letter or digit (F20b) *)
+(* ... and every field name is a valid identifier (F20b fixed: no guard) *)
 Theorem dedup_fields_valid : forall props,
-  forallb (fun p => has_alnum (fst p)) props = true ->
   Forall (fun n => valid_name n = true) (map snd (dedup_fields props)).
 Proof.
-  intros props G. unfold dedup_fields. cbv zeta.
+  intros props. unfold dedup_fields. cbv zeta.
   set (keys := map fst (isort prop_leb props)).
   rewrite map_snd_combine by (rewrite assign_length, map_length; reflexivity).
   eapply (Forall2_Forall_r _ (fun b => valid_name b = true)); [| |apply assign_shape].
   - intros b x Hb [i ->]. apply cand_us2_valid, Hb.
   - apply Forall_forall. intros b Hb. apply in_map_iff in Hb. destruct Hb as [k [<- Hk]].
-    apply method_name_valid_partial. subst keys. apply in_map_iff in Hk. destruct Hk as [p [<- Hp]].
-    rewrite forallb_forall in G. apply G. eapply Permutation_in; [apply isort_perm | exact Hp].
+    apply method_name_valid.
 Qed.
 
 (* ================================================================= enum members *)
@@ -497,21 +495,20 @@ Proof.
   - unfold class_stem. rewrite rev_app_distr. simpl. rewrite rev_involutive. apply class_pre_ident.
 Qed.
 
-Lemma cand_class_valid : forall n i, guard_F20a n = true -> valid_name (cand_class (class_name n) i) = true.
+Lemma cand_class_valid : forall n i, valid_name (cand_class (class_name n) i) = true.
 Proof.
-  intros n [|i] G; cbn [cand_class]; [apply class_name_valid_partial, G|].
+  intros n [|i]; cbn [cand_class]; [apply class_name_valid|].
   unfold valid_name. rewrite is_ident_app.
   - rewrite not_kw_ends_digit; [reflexivity | apply last_digit_of_app_dec].
   - apply class_stem_of_class_name.
   - apply digits_ident_chars, dec_digits.
 Qed.
 
-(* F20a excluded (on the stored names): every class name and every module stem handed out is a valid name *)
+(* F20a fixed: every class name and every module stem handed out is a valid name — no guard *)
 Theorem dedup_models_valid : forall raw,
-  forallb guard_F20a (map class_name raw) = true ->
   Forall (fun x => valid_name (fst (snd x)) = true /\ valid_name (snd (snd x)) = true) (dedup_models raw).
 Proof.
-  intros raw G. unfold dedup_models. cbv zeta.
+  intros raw. unfold dedup_models. cbv zeta.
   set (names := map class_name raw) in *.
   set (sorted := isort name_leb (combine names (seq 0 (length names)))).
   set (ns := map fst sorted).
@@ -528,14 +525,14 @@ Proof.
       destruct Hc as [<-|Hc]; [exists b, i; split; [left; reflexivity | exact Hi]|].
       destruct (IH Hc) as [b' [i' [Hb' Hc']]]. exists b', i'. split; [right; exact Hb' | exact Hc']. }
     destruct Hex as [b [i [Hb ->]]]. apply in_map_iff in Hb. destruct Hb as [n [<- Hn]].
-    apply cand_class_valid. rewrite forallb_forall in G. apply G, Hns, Hn. }
+    apply cand_class_valid. }
   assert (Hm : Forall (fun c => valid_name c = true) stems).
   { subst stems.
     eapply (Forall2_Forall_r _ (fun b => valid_name b = true)); [| |apply assign_shape].
     - intros b x Hb [i ->]. apply cand_us2_valid, Hb.
     - apply Forall_forall. intros b Hb. apply in_map_iff in Hb. destruct Hb as [n [<- Hn]].
       apply Hns in Hn. subst names. apply in_map_iff in Hn. destruct Hn as [x [<- _]].
-      unfold module_name_tok. apply module_of_tokens_valid; [apply tokens_nonempty, class_name_has_alnum | apply tokens_good]. }
+      unfold module_name_tok. apply module_of_tokens_valid, tokens_good. }
   assert (Lc : length cls = length ns) by (subst cls; rewrite assign_length, map_length; reflexivity).
   assert (Ls : length stems = length ns) by (subst stems; rewrite assign_length, map_length; reflexivity).
   rewrite Forall_forall. intros [i [c m]] Hin. simpl.
@@ -577,7 +574,12 @@ Qed.
 Lemma method_name_app : forall id d, forallb is_digit d = true -> d <> [] ->
   method_name (id ++ 95 :: d) = digit_pre (method_core id) ++ 95 :: d.
 Proof.
-  intros id d Hd Hne. unfold method_name, finish_snake. rewrite method_core_app by assumption.
+  intros id d Hd Hne. unfold method_name.
+  assert (Hb : or_unnamed (method_core (id ++ 95 :: d)) = method_core (id ++ 95 :: d)).
+  { rewrite method_core_app by assumption. destruct (method_core id) as [|c m].
+    - destruct (has_core id); [reflexivity|]. destruct d; [congruence | reflexivity].
+    - reflexivity. }
+  rewrite Hb. unfold finish_snake. rewrite method_core_app by assumption.
   assert (Hm1 : (if starts_digit (method_core id ++ (if has_core id then 95 :: d else d))
                  then 95 :: method_core id ++ (if has_core id then 95 :: d else d)
                  else method_core id ++ (if has_core id then 95 :: d else d))
@@ -591,9 +593,16 @@ Proof.
   rewrite Hm1. rewrite not_kw_res_us_digits by (apply ends_us_digits_app; assumption). reflexivity.
 Qed.
 
-Lemma method_name_as_pre : forall id, method_name id =
-  let q := digit_pre (method_core id) in if is_kw q || is_reserved q then q ++ [95] else q.
-Proof. reflexivity. Qed.
+(* the counter bucket (= method name) of an id is a function of the digit-prefixed core [q] *)
+Definition bucket (q : str) : str :=
+  let q' := match q with [] => digit_pre s_unnamed | _ => q end in
+  if is_kw q' || is_reserved q' then q' ++ [95] else q'.
+Lemma method_name_as_pre : forall id, method_name id = bucket (digit_pre (method_core id)).
+Proof.
+  intro id. unfold method_name, finish_snake, bucket, digit_pre.
+  destruct (method_core id) as [|c m]; [reflexivity|]. cbn [or_unnamed].
+  destruct (starts_digit (c :: m)); reflexivity.
+Qed.
 
 Definition count_of (seen : list (str * N)) (m : str) : N := match alookup m seen with Some c => c | None => 0 end.
 
@@ -601,7 +610,7 @@ Definition count_of (seen : list (str * N)) (m : str) : N := match alookup m see
 Definition out_shape (seen : list (str * N)) (n : str) : Prop :=
   (ends_us_digits n = false /\ alookup n seen = None)
   \/ (exists q k, n = q ++ 95 :: dec k
-        /\ count_of seen (if is_kw q || is_reserved q then q ++ [95] else q) < k).
+        /\ count_of seen (bucket q) < k).
 
 Lemma count_of_aset_same : forall seen m c, count_of (aset seen m c) m = c.
 Proof. intros. unfold count_of. rewrite alookup_aset_same. reflexivity. Qed.
@@ -636,7 +645,7 @@ Proof.
     cbn [map]. replace (id ++ [95] ++ dec (c + 1)) with (id ++ 95 :: dec (c + 1)) by reflexivity.
     rewrite method_name_app by (apply dec_digits || apply dec_nonempty).
     set (q := digit_pre (method_core id)).
-    assert (Hmq : m = if is_kw q || is_reserved q then q ++ [95] else q) by (subst m q; apply method_name_as_pre).
+    assert (Hmq : m = bucket q) by (subst m q; apply method_name_as_pre).
     set (n0 := q ++ 95 :: dec (c + 1)).
     assert (Hn0 : ends_us_digits n0 = true) by (apply ends_us_digits_app; [apply dec_digits | apply dec_nonempty]).
     assert (Hcnt : count_of seen m = c) by (unfold count_of; rewrite El; reflexivity).
